@@ -179,6 +179,23 @@ def run(ctx):
         want = [x for ch in mw.config.channels for x in [o for o in obs if o['name'] == ch][0]['data']] + list(mw.config.auxdata)
         if list(d) != want:
             ctx.fail('C12/workspace-data-layout', 'Workspace.data does not follow channel order + auxdata', {'workspace': wsd}, d, want)
+        # one workspace, a second measurement that moves the auxiliary data of the interpolated systematics: the data handed out for a model
+        # carry *that model's* auxiliary data, whichever model was asked for first
+        alt = [n for n in mw.config.auxdata_order if mw.config.param_set(n).n_parameters == 1 and mw.config.param_set(n).pdf_type == 'normal' and n != 'lumi']
+        if alt:
+            wsd2 = copy.deepcopy(wsd_frozen)
+            keep = [q for q in wsd2['measurements'][0]['config']['parameters'] if q['name'] not in alt]
+            wsd2['measurements'].append({'name': 'shifted', 'config': {'poi': wsd2['measurements'][0]['config']['poi'], 'parameters': keep + [{'name': n, 'auxdata': [0.25], 'inits': [0.25]} for n in alt]}})
+            try:
+                ws2m = pyhf.Workspace(wsd2)
+                for order in (('meas', 'shifted'), ('shifted', 'meas')):
+                    wsx = pyhf.Workspace(wsd2)
+                    for mn in order:
+                        mx = wsx.model(measurement_name=mn); dx = list(wsx.data(mx)); ctx.count()
+                        if dx[mx.config.nmaindata:] != list(mx.config.auxdata):
+                            ctx.fail('C12/workspace-data-layout', 'Workspace.data(model) does not end with that model\'s auxiliary data when several models are built on one workspace', {'workspace': wsd2, 'asked_in_order': list(order), 'measurement': mn}, dx[mx.config.nmaindata:], list(mx.config.auxdata))
+            except (pyhf.exceptions.InvalidModel, pyhf.exceptions.InvalidSpecification):
+                pass
         md = unfl(res[1])
         if len(md) != len(d) or not np.allclose(md, d, rtol=1e-12, atol=0):
             ctx.disagree('workspace.data', {'workspace': wsd}, md, list(d))
